@@ -5,6 +5,7 @@ package main
 
 import (
 	"fmt"
+	"regexp"
 	"go/ast"
 	"go/constant"
 	"go/token"
@@ -381,6 +382,9 @@ func (fv *FV) convert(e *Env, at ast.Node, v Value, from, to types.Type) Value {
 		return Value{K: kSlice, T: r, Off: intLit(0), Len: ln, Cap: ln, Type: to}
 	case fk == kSlice && tk == kScalar:
 		// slice to array conversion
+		if _, ok := to.Underlying().(*types.Array); ok && ts == sBlob && v.Off.S == "0" {
+			return Value{K: kScalar, T: app(sBlob, "blob_of", fv.sliceInner(e, v, sInt)), Type: to}
+		}
 		if at_, ok := to.Underlying().(*types.Array); ok && strings.HasPrefix(ts, "(Array ") {
 			_, es := arrParts(ts)
 			if v.Off.S == "0" {
@@ -411,6 +415,12 @@ func (fv *FV) builtin(e *Env, x *ast.CallExpr, name string) Value {
 	rt := fv.typeOf(x)
 	switch name {
 	case "len", "cap":
+		if lm, ok := fv.localMapOf(e, x.Args[0]); ok {
+			if fv.spec == nil {
+				fv.localMapCardFacts(e, lm)
+			}
+			return Value{K: kScalar, T: lm.Len, Type: rt}
+		}
 		v := fv.expr(e, x.Args[0])
 		at := fv.typeOf(x.Args[0])
 		if at == nil {
@@ -431,6 +441,7 @@ func (fv *FV) builtin(e *Env, x *ast.CallExpr, name string) Value {
 			l = ite(eq(v.T, tNull), intLit(0), l)
 			if fv.spec == nil {
 				fv.assume(e, le(intLit(0), l))
+				fv.mapCardFacts(e, v.T, u)
 			}
 			return Value{K: kScalar, T: l, Type: rt}
 		case *types.Basic:
@@ -471,6 +482,7 @@ func (fv *FV) builtin(e *Env, x *ast.CallExpr, name string) Value {
 		case *types.Map:
 			r := fv.allocRef(e, "mkmap")
 			fv.initEmptyMap(e, r, u)
+			fv.freshMapRefs[r.S] = true
 			return Value{K: kScalar, T: r, Type: t}
 		case *types.Chan:
 			return Value{K: kScalar, T: fv.allocRef(e, "chan"), Type: t}
@@ -484,6 +496,15 @@ func (fv *FV) builtin(e *Env, x *ast.CallExpr, name string) Value {
 		fv.storeCell(e, boxComp(t), t, "", fv.zeroValue(e, t), r)
 		return Value{K: kScalar, T: r, Type: rt}
 	case "delete":
+		if lm, ok := fv.localMapOf(e, x.Args[0]); ok {
+			k := fv.expr(e, x.Args[1])
+			id := ast.Unparen(x.Args[0]).(*ast.Ident)
+			nm := lm
+			nm.Len = fv.nameIfBig("len", ite(sel(lm.T, k.T), sub(lm.Len, intLit(1)), lm.Len))
+			nm.T = fv.nameIfBig("dom", store(lm.T, k.T, tFalse))
+			e.vars[fv.info.ObjectOf(id)] = nm
+			return Value{}
+		}
 		m := fv.expr(e, x.Args[0])
 		k := fv.expr(e, x.Args[1])
 		if mt, ok := fv.typeOf(x.Args[0]).Underlying().(*types.Map); ok {
@@ -923,6 +944,7 @@ func (fv *FV) ghostBuiltin(e *Env, x *ast.CallExpr, fn *types.Func) Value {
 				}
 				fv.quantN++
 				qn := fmt.Sprintf("%s!q%d", sanitize(n.Name), fv.quantN)
+				fv.quantSorts[qn] = s
 				binders = append(binders, fmt.Sprintf("(%s %s)", qn, s))
 				nb[obj] = Value{K: kScalar, T: Term{qn, s}, Type: obj.Type()}
 				// named (non-int) machine types keep their range: e.g. uint64 bound vars
@@ -991,12 +1013,19 @@ func (fv *FV) ghostBuiltin(e *Env, x *ast.CallExpr, fn *types.Func) Value {
 		}
 		fv.specErr("visited() outside map range")
 	case "gh_inDom":
+		if lm, ok := fv.localMapOf(e, x.Args[0]); ok {
+			k := fv.expr(e, x.Args[1])
+			return Value{K: kScalar, T: sel(lm.T, k.T)}
+		}
 		m := fv.expr(e, x.Args[0])
 		k := fv.expr(e, x.Args[1])
 		if mt, ok := fv.typeOf(x.Args[0]).Underlying().(*types.Map); ok {
 			return Value{K: kScalar, T: and(not(eq(m.T, tNull)), sel(fv.mapDom(e, m.T, mt), k.T))}
 		}
 	case "gh_mapLen":
+		if lm, ok := fv.localMapOf(e, x.Args[0]); ok {
+			return Value{K: kScalar, T: lm.Len}
+		}
 		m := fv.expr(e, x.Args[0])
 		return Value{K: kScalar, T: ite(eq(m.T, tNull), intLit(0), fv.mapLen(e, m.T))}
 	case "gh_uf", "gh_ufb", "gh_ufr":
@@ -1048,6 +1077,8 @@ func (fv *FV) ghostBuiltin(e *Env, x *ast.CallExpr, fn *types.Func) Value {
 	case "gh_max":
 		a, b := fv.expr(e, x.Args[0]).T, fv.expr(e, x.Args[1]).T
 		return Value{K: kScalar, T: ite(ge(a, b), a, b)}
+	case "gh_count":
+		return fv.countBuiltin(e, x, rt)
 	case "gh_unavail":
 		v := fv.expr(e, x.Args[0])
 		return Value{K: kScalar, T: fv.errIs(v.T, fv.unavailSentinel())}
@@ -1154,4 +1185,119 @@ func (fv *FV) unavailSentinel() Term {
 		fv.sentinels = append(fv.sentinels, c)
 	}
 	return c
+}
+
+var quantNameRe = regexp.MustCompile(`[A-Za-z_][A-Za-z_0-9]*!q[0-9]+`)
+
+// countBuiltin translates count(lo, hi, func(j int) bool { return P }) into an
+// application of a recursive SMT function (define-fun-rec) counting the j in
+// [lo, hi) that satisfy P.
+func (fv *FV) countBuiltin(e *Env, x *ast.CallExpr, rt types.Type) Value {
+	lit, ok := x.Args[2].(*ast.FuncLit)
+	if !ok || len(lit.Type.Params.List) != 1 || len(lit.Type.Params.List[0].Names) != 1 || len(lit.Body.List) != 1 {
+		fv.specErr("count needs a one-parameter function literal with a single return")
+		return fv.freshValue(rt, "count")
+	}
+	ret, ok := lit.Body.List[0].(*ast.ReturnStmt)
+	if !ok {
+		fv.specErr("count: body must be a return statement")
+		return fv.freshValue(rt, "count")
+	}
+	lo, hi := fv.expr(e, x.Args[0]).T, fv.expr(e, x.Args[1]).T
+	obj := fv.info.Defs[lit.Type.Params.List[0].Names[0]]
+	fv.quantN++
+	jn := fmt.Sprintf("j!q%d", fv.quantN)
+	fv.quantSorts[jn] = sInt
+	saved := fv.spec.bind
+	nb := map[types.Object]Value{}
+	for k, v := range saved {
+		nb[k] = v
+	}
+	nb[obj] = Value{K: kScalar, T: Term{jn, sInt}, Type: obj.Type()}
+	fv.spec.bind = nb
+	body := fv.expr(e, ret.Results[0]).T
+	fv.spec.bind = saved
+	// Lambda-lift: every maximal subterm that does not depend on j (nor on a
+	// variable bound inside the body) becomes a parameter, so that the recursive
+	// function depends only on the shape of the predicate and call sites at
+	// different program points share it.
+	tree := parseSx(body.S)
+	dep := map[string]bool{jn: true}
+	tree.innerBinders(dep)
+	bound := map[string]string{}
+	for k, v := range fv.quantSorts {
+		bound[k] = v
+	}
+	var actuals []string
+	var sorts []string
+	index := map[string]int{}
+	var lift func(n *sx) *sx
+	lift = func(n *sx) *sx {
+		if n.isAtom() && isLiteralAtom(n.atom) {
+			return n
+		}
+		if !n.containsAny(dep) {
+			srt := fv.s.sortOfSx(n, bound)
+			if srt != "" {
+				str := n.String()
+				k, ok := index[str]
+				if !ok {
+					k = len(actuals)
+					index[str] = k
+					actuals = append(actuals, str)
+					sorts = append(sorts, srt)
+				}
+				return &sx{atom: fmt.Sprintf("a!%d", k)}
+			}
+		}
+		if n.isAtom() {
+			return n
+		}
+		out := &sx{}
+		for i, k := range n.kids {
+			if i == 0 && k.isAtom() {
+				out.kids = append(out.kids, k) // operator position
+				continue
+			}
+			out.kids = append(out.kids, lift(k))
+		}
+		return out
+	}
+	lifted := lift(tree)
+	shape := strings.ReplaceAll(lifted.String(), jn, "$J") + "|" + strings.Join(sorts, ",")
+	name, ok2 := fv.countFuns[shape]
+	if !ok2 {
+		name = fmt.Sprintf("cnt$%d", len(fv.countFuns)+1)
+		fv.countFuns[shape] = name
+		var ps, as strings.Builder
+		for k, srt := range sorts {
+			fmt.Fprintf(&ps, " (a!%d %s)", k, srt)
+			fmt.Fprintf(&as, " a!%d", k)
+		}
+		b := strings.ReplaceAll(lifted.String(), jn, "(- hi!p 1)")
+		def := fmt.Sprintf("(define-fun-rec %s ((lo!p Int) (hi!p Int)%s) Int (ite (<= hi!p lo!p) 0 (+ (%s lo!p (- hi!p 1)%s) (ite %s 1 0))))", name, ps.String(), name, as.String(), b)
+		fv.s.declRaw(name, def)
+		// facts about every count (provable by induction on hi - lo; asserted as part of the theory of count)
+		fv.s.axiom(name+"$range", fmt.Sprintf("(forall ((lo!p Int) (hi!p Int)%s) (! (and (>= (%s lo!p hi!p%s) 0) (<= (%s lo!p hi!p%s) (ite (<= hi!p lo!p) 0 (- hi!p lo!p)))) :pattern ((%s lo!p hi!p%s))))",
+			ps.String(), name, as.String(), name, as.String(), name, as.String()))
+		fv.trustedUsed["count(lo,hi,P) is defined recursively (define-fun-rec); 0 <= count <= max(hi-lo,0) asserted as a lemma of that definition"] = true
+	}
+	args := []Term{lo, hi}
+	for k, a := range actuals {
+		args = append(args, Term{a, sorts[k]})
+	}
+	return Value{K: kScalar, T: app(sInt, name, args...), Type: rt}
+}
+
+// mapCardFacts: consequences of len(m) == |dom m| for a Go map (trusted
+// facts about the runtime's map type).
+func (fv *FV) mapCardFacts(e *Env, m Term, mt *types.Map) {
+	ks := mapKeySort(mt)
+	dom := fv.mapDom(e, m, mt)
+	l := fv.mapLen(e, m)
+	fv.assume(e, Term{fmt.Sprintf("(=> (<= %s 0) (forall ((k %s)) (! (not (select %s k)) :pattern ((select %s k)))))", l.S, ks, dom.S, dom.S), sBool})
+	fv.assume(e, Term{fmt.Sprintf("(=> (<= %s 1) (forall ((a %s) (b %s)) (! (=> (and (select %s a) (select %s b)) (= a b)) :pattern ((select %s a) (select %s b)))))", l.S, ks, ks, dom.S, dom.S, dom.S, dom.S), sBool})
+	fv.assume(e, Term{fmt.Sprintf("(forall ((a %s) (b %s)) (! (=> (and (select %s a) (select %s b) (not (= a b))) (>= %s 2)) :pattern ((select %s a) (select %s b))))", ks, ks, dom.S, dom.S, l.S, dom.S, dom.S), sBool})
+	fv.assume(e, Term{fmt.Sprintf("(forall ((a %s)) (! (=> (select %s a) (>= %s 1)) :pattern ((select %s a))))", ks, dom.S, l.S, dom.S), sBool})
+	fv.trustedUsed["Go map: len(m) is the cardinality of its key set (consequences for len<=0, len<=1, len>=2 assumed)"] = true
 }
